@@ -74,7 +74,7 @@ def _regions(chrpre, par):
     return regs
 
 
-def _table_for(cfg, drop=None, odd=False):
+def _table_for(cfg, drop=None, odd=False, meta=None):
     """drop: None, "X" or "Y" -- leave that chromosome out of the table (a panel without chrX rows must still treat chrY as chrY)."""
     ploidy, purity, male_ref, female, chrpre, par = cfg
     xl, yl = chrpre + "X", chrpre + "Y"
@@ -101,7 +101,7 @@ def _table_for(cfg, drop=None, odd=False):
     order = sorted(range(len(rows)), key=lambda k: (["1", "7", "X", "Y"].index(rows[k][0].replace("chr", "")), rows[k][1]))
     rows, truth = [rows[k] for k in order], [truth[k] for k in order]
     cna = make_cna({"chromosome": [r[0] for r in rows], "start": [r[1] for r in rows], "end": [r[2] for r in rows],
-                    "gene": ["G"] * len(rows), "log2": [r[3] for r in rows], "probes": [10] * len(rows), "weight": [1.0] * len(rows)}, odd=odd)
+                    "gene": ["G"] * len(rows), "log2": [r[3] for r in rows], "probes": [10] * len(rows), "weight": [1.0] * len(rows)}, odd=odd, meta=meta)
     return cna, rows, truth
 
 
@@ -109,7 +109,7 @@ def case_config(run, i):
     _n_cfg(run.tier)
     ploidy, purity, male_ref, female, chrpre, par = _CFG[run.tier][i]
     drop = [None, None, None, "X", "Y"][i % 5]
-    cna, rows, truth = _table_for(_CFG[run.tier][i], drop, odd=(i % 3 == 1))     # a third of the tables carry non-default row labels, as a filtered table does
+    cna, rows, truth = _table_for(_CFG[run.tier][i], drop, odd=(i % 3 == 1), meta=("none" if i % 4 == 2 else None))     # a third of the tables carry non-default row labels, as a filtered table does
     run.begin_case("config", i, cls=f"cfg:ploidy{ploidy}:{'purity' if purity < 1 else 'pure'}:{'par' if par else 'nopar'}" + (f":no{drop}" if drop else ""),
                    truth_n=truth, config=dict(ploidy=ploidy, purity=purity, male_ref=male_ref, female=female, naming=chrpre or "plain", par=par))
     import cnvlib.call as C
